@@ -71,6 +71,16 @@ def main(args):
     if eng == "declmc":
         from . import declmc
         return declmc.replay(rp)
+    if eng == "regmc-build":
+        st = R.struct_from_spec(rp["spec"])
+        ws, ok, dt, diag = B.build_machine_set("replay", [st], "checked")
+        print("replay: " + R.struct_decl(st))
+        if not ok:
+            print("\n".join(l for l in diag.splitlines() if "error" in l)[:2000])
+            print(f"VIOLATION property={rp.get('property')} replay={rp.get('_path')}")
+            return 1
+        print("replay: the declaration and its accessors compile on the current tree: does not reproduce")
+        return 0
     if eng == "build":
         print("replay: build failure artefact; diagnostics:\n" + rp.get("diagnostics", "")[-3000:])
         return 1
